@@ -47,8 +47,11 @@ def run(ctx):
     # big ranges: the shipped q, streams all-zero, all-ones, q-1, q, q+1, just above the mask, forced redraws
     sp = load_repo()
     t = Trace("randrange-big", uni)
-    for ps, g in [("P1024", "I1024"), ("P2048", "I2048"), ("P3072", "I3072"), ("PEd25519", "Ed25519")]:
-        uni.paramset(ps)
+    # ... and custom groups of unusual shape: q above 2^256, q filling its bytes exactly, a one-byte q, safe primes
+    zl = ["m521", "q64full", "q251", "s600", "s136", "s72a", "m65"]
+    for ps, g in [("P1024", "I1024"), ("P2048", "I2048"), ("P3072", "I3072"), ("PEd25519", "Ed25519")] + \
+            [("P" + z, z) for z in (zl if thorough else zl[:4])]:
+        uni.paramset(ps, grp=g) if g in zoo() else uni.paramset(ps)
         G = uni.group(g)
         q = G.order()
         nb = (q.bit_length() + 7) // 8
